@@ -144,3 +144,120 @@ def install_value_contracts():
         klass.__xor__ = icontract.ensure(_xor_post, error=ContractBroken)(klass.__dict__['__xor__'])
         klass.clear_features = icontract.ensure(_clear_post, error=ContractBroken)(klass.__dict__['clear_features'])
     _installed.add('values')
+
+
+# ------------------------------------------------------------------ depccg.unification (C06)
+from vlib import refunify  # noqa: E402
+
+
+def _uni_call_post(self, x, y, result):
+    _count('contract:Unification.__call__')
+    try:
+        px, py = refcat.to_ref(self.meta_x), refcat.to_ref(self.meta_y)
+        rx, ry = refcat.to_ref(x), refcat.to_ref(y)
+        want, bx, by = refunify.ref_match(px, py, rx, ry)
+        if want is None:
+            _count('contract:Unification.__call__:out-of-domain')
+            return True
+        self._verif = (bx, by, rx, ry)
+        if bool(result) != want:
+            _viol('unify:success-mismatch',
+                  f'patterns ({refcat.ref_print(px)}, {refcat.ref_print(py)}) on ({refcat.ref_print(rx)}, {refcat.ref_print(ry)}): '
+                  f'matcher says {bool(result)}, reference says {want}',
+                  {'px': refcat.ref_print(px), 'py': refcat.ref_print(py), 'x': refcat.ref_print(rx), 'y': refcat.ref_print(ry)})
+        else:
+            _count('contract:Unification.__call__:success' if want else 'contract:Unification.__call__:failure')
+    except Exception as e:
+        _viol('unify:success-mismatch', f'contract could not inspect the matcher: {e!r}', {})
+    return True
+
+
+def _uni_getitem_post(self, key, result):
+    _count('contract:Unification.__getitem__')
+    try:
+        st = getattr(self, '_verif', None)
+        if st is None:
+            return True
+        bx, by, rx, ry = st
+        got = refcat.to_ref(result)
+        ok, why = refunify.binding_ok(key, got, bx, by, rx, ry)
+        if not ok:
+            _viol('unify:binding', f'binding of {key!r} is {refcat.ref_print(got)}: {why}',
+                  {'px': str(self.meta_x), 'py': str(self.meta_y), 'x': refcat.ref_print(rx), 'y': refcat.ref_print(ry), 'var': key})
+    except Exception as e:
+        _viol('unify:binding', f'contract could not inspect the binding: {e!r}', {})
+    return True
+
+
+def install_unification_contracts():
+    from depccg import unification as U
+    if 'unify' in _installed:
+        return
+    U.Unification.__call__ = icontract.ensure(_uni_call_post, error=ContractBroken)(U.Unification.__dict__['__call__'])
+    U.Unification.__getitem__ = icontract.ensure(_uni_getitem_post, error=ContractBroken)(U.Unification.__dict__['__getitem__'])
+    _installed.add('unify')
+
+
+# ------------------------------------------------------------------ English grammar (C03)
+from vlib import schemas_en  # noqa: E402
+
+
+def _res_tuple(r):
+    return (refcat.to_ref(r.cat), r.op_string, r.op_symbol, r.head_is_left)
+
+
+def _en_binary_post(x, y, seen_rules, result):
+    _count('contract:en.apply_binary_rules')
+    try:
+        ex, ey = refcat.erase(refcat.to_ref(x), {'nb'}), refcat.erase(refcat.to_ref(y), {'nb'})
+        wit = {'x': refcat.ref_print(refcat.to_ref(x)), 'y': refcat.ref_print(refcat.to_ref(y))}
+        got = []
+        for r in result:
+            t = _res_tuple(r)
+            got.append(t)
+            ok, why = schemas_en.justified(ex, ey, t)
+            if ok is None:
+                _count('contract:en.apply_binary_rules:out-of-domain')
+                continue
+            _count('contract:en:result-justified')
+            if _R is not None:
+                _R.hist('en_labels_seen', f'{t[1]} {t[2]}')
+            if not ok:
+                _viol(f'en:{t[1]}:unjustified', f'{wit["x"]} + {wit["y"]} -> {refcat.ref_print(t[0])} [{t[1]} {t[2]} head_left={t[3]}]: {why}',
+                      dict(wit, result=refcat.ref_print(t[0]), label=t[1], symbol=t[2], head_is_left=t[3]))
+        if seen_rules is None:
+            for lab, sym, cat in schemas_en.converse(ex, ey):
+                _count('contract:en:converse-expected')
+                if (cat, lab, sym, True) not in got:
+                    _viol(f'en:{lab}:missing', f'{wit["x"]} + {wit["y"]}: premises of {lab} hold with identical matched parts but '
+                          f'{refcat.ref_print(cat)} [{lab} {sym}] is not among the results {[(refcat.ref_print(g[0]), g[1]) for g in got]}',
+                          dict(wit, expected=refcat.ref_print(cat), label=lab))
+    except Exception as e:
+        _viol('en:contract-error', f'contract could not inspect the call: {e!r}', {})
+    return True
+
+
+def _patch_registries(lang, new):
+    import sys
+    for modname, attr in (('depccg.tree', 'BINARY_RULES'), ('depccg.tools.reader', 'BINARY_RULES')):
+        m = sys.modules.get(modname)
+        if m is not None:
+            getattr(m, attr)[lang] = new
+    m = sys.modules.get('depccg.instance_models')
+    if m is not None:
+        g = m.GRAMMARS[lang]
+        m.GRAMMARS[lang] = type(g)(new, g.apply_unary_rules)
+
+
+def install_en_contracts():
+    if 'en' in _installed:
+        return
+    from depccg.grammar import en
+    orig = en.apply_binary_rules
+
+    def apply_binary_rules(x, y, seen_rules=None):
+        return orig(x, y, seen_rules)
+    checked = icontract.ensure(_en_binary_post, error=ContractBroken)(apply_binary_rules)
+    en.apply_binary_rules = checked
+    _patch_registries('en', checked)
+    _installed.add('en')
